@@ -551,5 +551,202 @@ theorem parse_minus_digit_head (b : Nat) (rest : Bytes) (hb : isDigit b = true) 
   have h4 : b ≠ 0x6E := by omega
   simp [parse, hl, h3, h4]
 
+/-! ### rounding: `reduce` is within half a unit of the last kept digit -/
+
+/-- `(c, dg, st)` after `k` dropped digits represents `V`: `V = c·10^k + (dg·10^k + t)/10`, `t < 10^k` the tail whose
+    being non-zero is the sticky flag -/
+def RInv (V k c dg : Nat) (st : Bool) : Prop :=
+  ∃ t, 10 * V = c * 10 ^ (k + 1) + dg * 10 ^ k + t ∧ t < 10 ^ k ∧ dg < 10 ∧ (st = true ↔ t ≠ 0)
+
+/-- `c4·10^k` is within half a unit `10^k` of `V` -/
+def Close (V k c4 : Nat) : Prop := 2 * V ≤ 2 * c4 * 10 ^ k + 10 ^ k ∧ 2 * c4 * 10 ^ k ≤ 2 * V + 10 ^ k
+
+theorem RInv_init (V : Nat) : RInv V 0 V 0 false := ⟨0, by simp; omega⟩
+
+theorem RInv_step {V k c dg : Nat} {st : Bool} (h : RInv V k c dg st) :
+    RInv V (k + 1) (c / 10) (c % 10) (st || dg != 0) := by
+  obtain ⟨t, h1, h2, h3, h4⟩ := h
+  refine ⟨dg * 10 ^ k + t, ?_, ?_, by omega, ?_⟩
+  · have hc : c = 10 * (c / 10) + c % 10 := by omega
+    generalize c / 10 = q at *
+    generalize c % 10 = r at *
+    subst hc
+    rw [h1]
+    simp only [Nat.pow_succ]
+    grind
+  · rw [Nat.pow_succ]
+    have : dg * 10 ^ k ≤ 9 * 10 ^ k := Nat.mul_le_mul_right _ (by omega)
+    omega
+  · have hp : 0 < 10 ^ k := Nat.pow_pos (by decide)
+    by_cases hd : dg = 0
+    · subst hd; simp [h4]
+    · have : 10 ^ k ≤ dg * 10 ^ k := Nat.le_mul_of_pos_left _ (by omega)
+      simp [hd]; omega
+
+theorem MAXSIG_val : MAXSIG = 12980742146337069071326240823050239 := by decide
+
+theorem dropHigh_spec (V : Nat) : ∀ (fuel c : Nat) (e : Int) (dg : Nat) (st : Bool) (k : Nat),
+    RInv V k c dg st → c < 2 ^ fuel →
+    ∃ j c' dg' st', dropHigh fuel c e dg st = (c', e + (j : Nat), dg', st') ∧ RInv V (k + j) c' dg' st' ∧ c' ≤ MAXSIG ∧
+      (c ≤ MAXSIG → j = 0 ∧ c' = c) ∧ (MAXSIG < c → 1 ≤ j ∧ (MAXSIG + 1) / 10 ≤ c')
+  | 0, c, e, dg, st, k, h, hc => by
+    have : c = 0 := by simpa using hc
+    subst this
+    exact ⟨0, 0, dg, st, by simp [dropHigh], by simpa using h, by simp, by simp, by simp [MAXSIG_val]⟩
+  | fuel + 1, c, e, dg, st, k, h, hc => by
+    unfold dropHigh
+    by_cases hgt : c > MAXSIG
+    · simp only [hgt, if_true]
+      obtain ⟨j, c', dg', st', h1, h2, h3, h4, h5⟩ :=
+        dropHigh_spec V fuel (c / 10) (e + 1) (c % 10) (st || dg != 0) (k + 1) (RInv_step h)
+          (by rw [Nat.pow_succ] at hc; omega)
+      refine ⟨j + 1, c', dg', st', ?_, ?_, h3, by omega, fun _ => ⟨by omega, ?_⟩⟩
+      · rw [h1]; simp only [Prod.mk.injEq, true_and, and_true]; omega
+      · have : k + (j + 1) = k + 1 + j := by omega
+        rw [this]; exact h2
+      · by_cases h10 : c / 10 ≤ MAXSIG
+        · rw [(h4 h10).2]; rw [MAXSIG_val] at *; omega
+        · exact (h5 (by omega)).2
+    · simp only [hgt, if_false]
+      exact ⟨0, c, dg, st, by simp, by simpa using h, by omega, fun _ => ⟨rfl, rfl⟩, fun h' => h'.elim⟩
+
+/-- the decision is the correct one: the chosen neighbour is within half a unit -/
+theorem round_close {V k c dg : Nat} {st : Bool} (h : RInv V k c dg st) (up : Prop)
+    (hup : up ↔ (if st then dg ≥ 5 else (dg > 5 || (dg == 5 && c % 2 == 1)))) :
+    (¬ up → Close V k c) ∧ (up → Close V k (c + 1)) := by
+  obtain ⟨t, h1, h2, h3, h4⟩ := h
+  rw [Nat.pow_succ] at h1
+  have hp : 0 < 10 ^ k := Nat.pow_pos (by decide)
+  unfold Close
+  rw [hup]
+  generalize 10 ^ k = P at *
+  have e1 : c * (P * 10) = 10 * (c * P) := by grind
+  have e2 : 2 * (c + 1) * P = 2 * (c * P) + 2 * P := by grind
+  have e3 : 2 * c * P = 2 * (c * P) := by grind
+  rw [e2, e3]
+  rw [e1] at h1
+  generalize c * P = cP at *
+  have hub : dg * P ≤ 9 * P := Nat.mul_le_mul_right _ (by omega)
+  cases st with
+  | true =>
+    have ht : t ≠ 0 := h4.mp rfl
+    simp only [if_true]
+    constructor
+    · intro hd
+      have : dg * P ≤ 4 * P := Nat.mul_le_mul_right _ (by omega)
+      omega
+    · intro hd
+      have : 5 * P ≤ dg * P := Nat.mul_le_mul_right _ (by omega)
+      omega
+  | false =>
+    have ht : t = 0 := by
+      by_cases h : t = 0
+      · exact h
+      · exact absurd (h4.mpr h) (by simp)
+    subst ht
+    simp only [Bool.false_eq_true, if_false]
+    constructor
+    · intro hd
+      have : dg ≤ 5 := by
+        apply Nat.le_of_not_lt; intro h6
+        exact hd (by simp; omega)
+      have : dg * P ≤ 5 * P := Nat.mul_le_mul_right _ this
+      omega
+    · intro hd
+      have : 5 ≤ dg := by
+        simp only [Bool.or_eq_true, decide_eq_true_eq, Bool.and_eq_true, beq_iff_eq] at hd
+        omega
+      have : 5 * P ≤ dg * P := Nat.mul_le_mul_right _ this
+      omega
+
+/-- the round-half-even decision -/
+def RoundUp (c dg : Nat) (st : Bool) : Prop :=
+  if st = true then dg ≥ 5 else (decide (dg > 5) || (dg == 5 && c % 2 == 1)) = true
+
+instance (c dg : Nat) (st : Bool) : Decidable (RoundUp c dg st) := by unfold RoundUp; exact inferInstance
+
+theorem roundEven_succ (fuel c : Nat) (e : Int) (dg : Nat) (st : Bool) :
+    roundEven (fuel + 1) c e dg st =
+      (if RoundUp c dg st then
+        (if c + 1 > MAXSIG then roundEven fuel (c / 10) (e + 1) (c % 10) (st || dg != 0) else (c + 1, e))
+       else (c, e)) := by
+  simp only [roundEven]; rfl
+
+theorem roundEven_nocarry {V k c dg : Nat} {st : Bool} (fuel : Nat) (e : Int) (h : RInv V k c dg st)
+    (hc : c + 1 ≤ MAXSIG) :
+    ∃ c4, roundEven (fuel + 1) c e dg st = (c4, e) ∧ Close V k c4 ∧ c ≤ c4 ∧ c4 ≤ c + 1 ∧ (dg > 5 → c4 = c + 1) := by
+  rw [roundEven_succ]
+  by_cases hup : RoundUp c dg st
+  · have := (round_close h _ Iff.rfl).2 hup
+    simp only [hup, if_true, Nat.not_lt.mpr hc, if_false]
+    exact ⟨c + 1, rfl, this, by omega, by omega, fun _ => rfl⟩
+  · have := (round_close h _ Iff.rfl).1 hup
+    simp only [hup, if_false]
+    refine ⟨c, rfl, this, by omega, by omega, fun h6 => ?_⟩
+    exfalso; apply hup
+    unfold RoundUp
+    cases st <;> simp <;> omega
+
+theorem roundEven_spec {V k c dg : Nat} {st : Bool} (fuel : Nat) (e : Int) (h : RInv V k c dg st) (hc : c ≤ MAXSIG) :
+    ∃ c4 j, roundEven (fuel + 2) c e dg st = (c4, e + (j : Nat)) ∧ Close V (k + j) c4 ∧ c4 ≤ MAXSIG ∧
+      ((MAXSIG + 1) / 10 ≤ c → (MAXSIG + 1) / 10 ≤ c4) := by
+  by_cases hc1 : c + 1 ≤ MAXSIG
+  · obtain ⟨c4, h1, h2, h3, h4, _⟩ := roundEven_nocarry (fuel + 1) e h hc1
+    exact ⟨c4, 0, by simpa using h1, by simpa using h2, by omega, by omega⟩
+  · have hcM : c = MAXSIG := by omega
+    rw [roundEven_succ]
+    by_cases hup : RoundUp c dg st
+    · have hgt : c + 1 > MAXSIG := by omega
+      simp only [hup, hgt, if_true]
+      have h10 : c / 10 + 1 ≤ MAXSIG := by rw [MAXSIG_val] at *; omega
+      obtain ⟨c4, h1, h2, h3, h4, h5⟩ := roundEven_nocarry fuel (e + 1) (RInv_step h) h10
+      have h9 : c % 10 > 5 := by rw [hcM, MAXSIG_val]; decide
+      have := h5 h9
+      refine ⟨c4, 1, by rw [h1]; simp, h2, by omega, fun _ => ?_⟩
+      rw [this, hcM, MAXSIG_val]; decide
+    · have := (round_close h _ Iff.rfl).1 hup
+      simp only [hup, if_false]
+      exact ⟨c, 0, by simp, by simpa using this, hc, fun h => h⟩
+
+theorem scaleUp_full (fuel c : Nat) (e : Int) (hc : MAXSIG < c * 10) : scaleUp fuel c e = (c, e) := by
+  cases fuel with
+  | zero => rfl
+  | succ fuel => unfold scaleUp; simp [Nat.not_le.mpr hc]
+
+theorem lt_two_pow_fuel (c : Nat) : c < 2 ^ (Nat.log2 (c + 1) + 2) := by
+  have h1 : c + 1 < 2 ^ (Nat.log2 (c + 1) + 1) := Nat.lt_log2_self
+  rw [Nat.pow_succ]
+  omega
+
+/-- **`reduce_close`**: a coefficient that does not fit (`c > MAXSIG`) at an exponent `e ≥ EMIN` (no gradual
+    underflow) is rounded correctly: `k ≥ 1` digits are dropped, the kept coefficient `c4` satisfies
+    `10^33 ≤ c4 ≤ MAXSIG` (at least 34 significant digits are kept) and `|c − c4·10^k| ≤ 10^k / 2` — half a unit of
+    the last kept digit, hence at most half a unit of the 34th significant digit.  The result is `c4·10^(e+k)`, or
+    ±Inf when `e + k > EMAX`. -/
+theorem reduce_close (neg : Bool) (c : Nat) (e : Int) (hc : MAXSIG < c) (he : EMIN ≤ e) :
+    ∃ c4 k, 1 ≤ k ∧ c4 ≤ MAXSIG ∧ 10 ^ 33 ≤ c4 ∧ Close c k c4 ∧
+      reduce neg c e false = if e + (k : Nat) > EMAX then .inf neg else normalize (.fin neg c4 (e + (k : Nat))) := by
+  have hc0 : c ≠ 0 := by rw [MAXSIG_val] at hc; omega
+  obtain ⟨j, c1, d1, s1, h1, h2, h3, _, h5⟩ :=
+    dropHigh_spec c (Nat.log2 (c + 1) + 2) c e 0 false 0 (RInv_init c) (lt_two_pow_fuel c)
+  obtain ⟨hj, hc1⟩ := h5 hc
+  obtain ⟨c4, j', r1, r2, r3, r4⟩ := roundEven_spec 1 (e + (j : Nat)) h2 h3
+  have hc4 := r4 hc1
+  refine ⟨c4, j + j', by omega, r3, by rw [MAXSIG_val] at hc4; omega, by simpa using r2, ?_⟩
+  unfold reduce
+  simp only [hc0, false_and, if_false]
+  rw [h1]
+  simp only []
+  rw [dropLow_id _ _ _ _ _ (by omega)]
+  simp only []
+  have hlt : ¬ (e + (j : Int) < EMIN) := by omega
+  simp only [hlt, if_false]
+  rw [scaleUp_full _ _ _ (by rw [MAXSIG_val] at *; omega)]
+  simp only []
+  rw [r1]
+  simp only []
+  have : e + (j : Int) + (j' : Int) = e + ((j + j' : Nat) : Int) := by omega
+  rw [this]
+
 end Dec
 end Jmes
